@@ -31,6 +31,11 @@ func register(c *Check) {
 	if _, dup := registry[c.ID]; dup {
 		panic("duplicate check " + c.ID)
 	}
+	if from := depSources[c.ID]; len(from) > 0 {
+		c.Pkgs = withDeps(c.Pkgs)
+		c.Explanation += " " + depExplanation
+		c.Technique += "; contracts of the repository's own trusted helpers (error classes, errors.Is, chans.IsOpened, cast.Ptr) decided on the helpers' bodies by path enumeration"
+	}
 	registry[c.ID] = c
 }
 
@@ -88,7 +93,11 @@ func RunCheck(chk *Check, p *ir.Prog, cfg string) (res *report.Result) {
 			panic(r)
 		}
 	}()
-	chk.Run(&Ctx{P: p, R: res})
+	ctx := &Ctx{P: p, R: res}
+	chk.Run(ctx)
+	if from := depSources[chk.ID]; len(from) > 0 {
+		ctx.depContracts(chk.ID, from...)
+	}
 	fs := map[string]bool{}
 	for _, f := range res.Functions {
 		fs[f] = true
